@@ -842,10 +842,12 @@ class ReducedDensityMatrixPropagator(MatrixData, Saveable):
         Km = self.RelaxationTensor.Km # real
         Lm = self.RelaxationTensor.Lm # complex
         Ld = self.RelaxationTensor.Ld # complex - get by transposition
-        Kd = numpy.zeros(Km.shape, dtype=numpy.float64)
+        # Hermitian conjugates of the operators; the plain transposition is
+        # the conjugate only as long as the operators are real
+        Kd = numpy.zeros(Km.shape, dtype=Km.dtype)
         Nm = Km.shape[0]
         for m in range(Nm):
-            Kd[m, :, :] = numpy.transpose(Km[m, :, :])
+            Kd[m, :, :] = numpy.conj(numpy.transpose(Km[m, :, :]))
             
         indx = 1
 
@@ -1107,10 +1109,12 @@ class ReducedDensityMatrixPropagator(MatrixData, Saveable):
             cutoff_indx = self.TimeAxis.length
 
         Km = self.RelaxationTensor.Km
-        Kd = numpy.zeros(Km.shape, dtype=numpy.float64)
+        # Hermitian conjugates of the operators; the plain transposition is
+        # the conjugate only as long as the operators are real
+        Kd = numpy.zeros(Km.shape, dtype=Km.dtype)
         Nm = Km.shape[0]
         for m in range(Nm):
-            Kd[m, :, :] = numpy.transpose(Km[m, :, :])
+            Kd[m, :, :] = numpy.conj(numpy.transpose(Km[m, :, :]))
                         
         indx = 1
         indxR = 1
